@@ -35,7 +35,8 @@ func NewCardSecurity(data []byte) (out *CardSecurity, err error) {
 		var sd *cms.SignedData
 		var err error
 
-		sd, err = cms.ParseSignedData(out.RawData)
+		// NB same indefinite-length tolerance as EF.SOD (see parseSignedDataWithDecodeEncodeRetry)
+		sd, err = parseSignedDataWithDecodeEncodeRetry(out.RawData)
 		if err != nil {
 			return nil, err
 		}
